@@ -1,4 +1,6 @@
-"""Regenerate every coq/Gen/*_gen.v from /repo's working tree (used by setup.sh; each check regenerates its own)."""
+"""Regenerate the purely translated coq/Gen/*_gen.v from /repo's working tree (used by setup.sh; each check regenerates its own).
+AdapterMaps_gen.v and Detect_gen.v also hold tables MEASURED by their checks (C12, C13): setup builds the committed copies and the
+checks rewrite them on every run."""
 import importlib
 import os
 import sys
@@ -13,6 +15,7 @@ GENERATORS = {
     "SetIter_gen": "translator.gen_setiter",
     "LagOffset_gen": "translator.gen_lagoffset",
     "Derivable_gen": "translator.gen_derivable",
+    "NativeFields_gen": "translator.gen_native",
 }
 
 
